@@ -60,7 +60,9 @@ class Check(HCheck):
         # are compiled case-insensitively - on every path, also when re-supplied at reopen
         LH = b"s:http|h:LOCALHOST|"
         case = [al.rule(LH, "path1"), al.page(LH + b"p:x|"), al.page(LH + b"p:y|p:z|", True), al.REOPEN, al.unrule(LH), al.clear("never", {LH: "path2"})]
+        sr = [al.page(Ax), al.page(Axy, True), al.as_str(al.page(Ab + b"p:k|")), al.rule(Ab, "path2"), al.REOPEN, al.delete(0)]
         return [
+            Space(Cfg("domain", {A: "path1"}, str_rules=True), sr, 5 if thorough else 4, name="life/str-rule-anchors", dedup=False),
             Space(Cfg("never"), case, 5 if thorough else 4, name="life/letter-case", dedup=False),
             # every sequence over a small alphabet, no merging of byte-equal states
             Space(Cfg("domain"), seq, 5 if thorough else 4, name="life/all-sequences", dedup=False),
@@ -90,7 +92,7 @@ class Check(HCheck):
                 elif kind == "clear":
                     tr = P.apply(op)
                     T.close()
-                    T = World(Cfg(op[1], dict(op[2])))
+                    T = World(Cfg(op[1], dict(op[2]), str_rules=cfg.str_rules, encoding=cfg.encoding))
                     P.companions = [T]
                     after_life = "clear"
                     if last:
